@@ -117,8 +117,11 @@ def ioread_map(ctx, lexpr):
                     return Adt(OPT, 0, [])
                 return None
 
+            # the reader's own inherent helpers (`next_byte()`, `iter_position()`) are looked through
             S = sim.Sim([lexpr], hooks={"call": hook, "opaque": opaque},
-                        inline=lambda a, b: b.crate == lexpr.name and b.file.endswith("parse/error.rs"))
+                        inline=lambda a, b: b.crate == lexpr.name and (b.file.endswith("parse/error.rs") or (
+                            b.file.endswith("parse/read.rs") and b.kind != "closure" and not b.impl_trait
+                            and (b.self_ty or "").startswith("parse::read::IoRead"))))
             ps = [p for p in S.run(f) if p.end == "return"]
             outs = set()
             for p in ps:
